@@ -608,11 +608,11 @@ func main() {
 	for _, s := range lbp.zeroSyms {
 		zs = append(zs, qs(s))
 	}
-	fmt.Fprintf(&b, "Definition infix_lbp : lbpconsts := mkLbp %s %s %s %s %s %s %s %s %s %s %s %s [%s] %s %s %s %s %s.\n",
+	fmt.Fprintf(&b, "Definition infix_lbp : lbpconsts := mkLbp %s %s %s %s %s %s %s %s %s %s %s %s [%s] %s %s %s %s %s %s.\n",
 		qz(lbp.c["SexpInt"]), qz(lbp.c["SexpFloat"]), qz(lbp.c["SexpBool"]), qz(lbp.c["SexpStr"]),
 		qz(lbp.c["SexpArray"]), qz(lbp.c["SexpComma"]), qz(lbp.c["SexpSemicolon"]), qz(lbp.c["SexpComment"]),
 		qz(lbp.c["SexpPair"]), qz(lbp.c["SexpHash"]), qz(lbp.dot), qz(lbp.symDefault),
-		strings.Join(zs, "; "), qz(lbp.zeroVal), qs(keys.comma), qs(keys.dot), qz(arrayBp), arrayLed)
+		strings.Join(zs, "; "), qz(lbp.zeroVal), qz(lbp.noLed), qs(keys.comma), qs(keys.dot), qz(arrayBp), arrayLed)
 	if err := os.WriteFile(*out, []byte(b.String()), 0644); err != nil {
 		die(token.NoPos, "write: %v", err)
 	}
@@ -643,6 +643,7 @@ type lbpInfo struct {
 	zeroSyms   []string
 	zeroVal    int
 	dot        int
+	noLed      int
 	symDefault int
 }
 
@@ -716,8 +717,17 @@ func analyseLBP(fd *ast.FuncDecl) lbpInfo {
 						info.zeroSyms = append(info.zeroSyms, s2)
 						info.zeroVal = returnsConst(y.Body.List, y.Pos())
 					case (stage == 1 || stage == 2) && c == "found":
-						if len(y.Body.List) != 1 || src(y.Body.List[len(y.Body.List)-1]) != "return op.Bp, nil" {
-							die(y.Pos(), "LeftBindingPower(symbol): a found operator does not return op.Bp")
+						// expected: if op.MunchLeft == nil { return K, nil }; return op.Bp, nil
+						if len(y.Body.List) != 2 {
+							die(y.Pos(), "LeftBindingPower(symbol): body of `if found` has %d statements, expected `if op.MunchLeft == nil {return K, nil}; return op.Bp, nil`", len(y.Body.List))
+						}
+						inner, ok := y.Body.List[0].(*ast.IfStmt)
+						if !ok || src(inner.Cond) != "op.MunchLeft == nil" || inner.Else != nil {
+							die(y.Pos(), "LeftBindingPower(symbol): expected `if op.MunchLeft == nil` inside `if found`")
+						}
+						info.noLed = returnsConst(inner.Body.List, inner.Pos())
+						if src(y.Body.List[1]) != "return op.Bp, nil" {
+							die(y.Pos(), "LeftBindingPower(symbol): a found operator with a MunchLeft does not return op.Bp")
 						}
 						stage = 2
 					case stage == 2 && c == "x.isDot":
